@@ -1144,8 +1144,13 @@ fn render_sel(items: &[SelItem], indent: usize, style: u64, out: &mut String) {
         _ => "\t",
     };
     let comma = (style >> 4) % 5 == 0;
+    // fields grouped by empty lines (one file style in four)
+    let blank_lines = (style >> 44) % 4 == 0;
     let pad = unit.repeat(indent);
-    for it in items {
+    for (k, it) in items.iter().enumerate() {
+        if blank_lines && k > 0 && k % 2 == 0 {
+            out.push('\n');
+        }
         out.push_str(&pad);
         match it {
             SelItem::Field { alias, name, args, directive, sel } => {
